@@ -10,6 +10,11 @@ import Frp.Props.C02
   replayed on Frp/Model/HttpTime.lean under `frpLimits 1` (harness: ResponseHeaderTimeoutS = 1);
   `C02.timedHolds` then demands of the implementation's result what the model's outcome says.
 
+  Upgrade ops (`ws`, `tws`, `h2c`) and `connect` / `tconnect`: `C02.tunnelHolds` on the implementation's
+  result — the harness reports which backend RECEIVED the handshake (it records before it answers
+  101 / 200), so "the backend accepted, the user got something else" is a property failure with a
+  concrete replay, not only a disagreement with the model.
+
   Relational parts (DESIGN §2.4): which idle backend connection the Transport picked (`c=<n>r`) or
   that it dialled (`c=<n>n`) is taken from the implementation's result; the model checks that a
   reused connection is idle under the request's pool key, and continues from the observed choice.
@@ -253,6 +258,9 @@ def stepReq (st : State) (cli form method host path query user hs body status rh
       (st', verdictOf model impl prop)
   | _, _, _, _, _, _, _, _, _, _ => (st, .bad "req")
 
+/-- the status the user got (`st=`), 0 when the result has none -/
+def stOf (fs : List String) : Nat := ((field fs "st").bind String.toNat?).getD 0
+
 /-- a protocol upgrade followed by `gaps.length / 2` tunnel rounds -/
 def stepWs (st : State) (host path user up down : String) (gaps : List Nat) (impl : String) : State × Verdict :=
   match unhx host, unhx path, (if user = "-" then some [] else unhx user), up.splitOn ".", down.splitOn "." with
@@ -281,18 +289,73 @@ def stepWs (st : State) (host path user up down : String) (gaps : List Nat) (imp
         | _ => s!"be=- rt={rt} st=404 b=page"
       let prop : Option Bool :=
         match (field fs "be").bind String.toNat? with
-        | some be => some (C02.freshB s host path user be && field fs "up" = some s!"{ul}.{uh}" &&
-                           field fs "down" = some s!"{dl}.{dh}" && field fs "st" = some "101")
-        | none => some (field fs "st" = some "404" ∧ field fs "b" = some "page")
+        | some be => some (C02.tunnelHolds true (C02.freshB s host path user be) (stOf fs) 101
+                             (field fs "up" = some s!"{ul}.{uh}") (field fs "down" = some s!"{dl}.{dh}") false)
+        | none => some (C02.tunnelHolds false true (stOf fs) 101 false false (field fs "b" = some "page"))
       ({ st with P := P' }, verdictOf model impl prop)
     | none =>
-      -- no backend: nothing was dialled or reused
+      -- the user got no tunnel (no `c=` field).  Either no backend was involved (`be=-`: nothing was
+      -- dialled or reused; 404 + page is then the only answer), or a backend received the handshake and
+      -- answered 101 (`be=<id>`): its answer did not reach the user — the upgrade clause fails on the
+      -- implementation's own result.
       let (_, out) := HttpPool.step poolIsFixed s (.serve host path user none none 0 false)
       let model := match out with
         | .answered o _ _ => s!"be={o} rt={rt} c=? st=101"
         | _ => s!"be=- rt={rt} st=404 b=page"
-      (st, verdictOf model impl (some (field fs "st" = some "404" ∧ field fs "b" = some "page")))
+      let reached := ((field fs "be").bind String.toNat?).isSome
+      (st, verdictOf model impl (some (C02.tunnelHolds reached true (stOf fs) 101 false false (field fs "b" = some "page"))))
   | _, _, _, _, _ => (st, .bad "ws")
+
+/-- `<seed>.<len>.<hash>` ↦ (`len.hash`, len = 0) -/
+def tokVal (t : String) : Option (String × Bool) :=
+  match t.splitOn "." with
+  | [_, l, h] => some (s!"{l}.{h}", l = "0")
+  | _ => none
+
+/-- an h2c upgrade (RFC 7540 §3.2, `h2c.NewHandler` around the reverse proxy): the handler takes the
+    user connection over (the capability of `HttpTime.frpRW`), answers 101, and the request is served
+    as stream 1 of an HTTP/2 connection — towards the backend one ordinary HTTP/1.1 exchange (the
+    recording backend answers with `Connection: close`) -/
+def stepH2c (st : State) (host path user method body status rbody : String) (impl : String) : State × Verdict :=
+  match unhx host, unhx path, (if user = "-" then some [] else unhx user),
+        (if body = "-" then some ("-", true) else tokVal body), status.toNat?, tokVal rbody with
+  | some host, some path, some user, some (upv, upEmpty), some status, some (dnv, _) =>
+    let _ := method
+    let fs := impl.splitOn " "
+    let s := st.P
+    let rt := rtString s host path user
+    let upOk : Bool := if upEmpty then (field fs "up" = some "-" ∨ ((field fs "up").getD "").startsWith "0.") else field fs "up" = some upv
+    let upM : String := if upEmpty then (field fs "up").getD "-" else upv
+    let noBackend : String := if rt = "-" then s!"be=- rt=- st=404 pr=h1 b=page" else s!"be=- rt={rt} st=404 pr=h2 b=page"
+    match (field fs "c").bind parseConn with
+    | some (reuse, newId) =>
+      let st := adoptSpare st (keyOf poolIsFixed st.P (routeOf st.P host path user) host none) reuse
+                  ((field fs "be").bind String.toNat?)
+      let s := st.P
+      let st := noteConn st reuse newId
+      let (P', out) := HttpPool.step poolIsFixed s (.serve host path user none reuse newId false)
+      let model := match out with
+        | .answered o c reused =>
+          s!"be={o} rt={rt} ow={ownerNote s o rt} c={c}{if reused then "r" else "n"} st={status} pr=h2 up={upM} down={dnv}"
+        | _ => noBackend
+      let prop : Option Bool :=
+        match (field fs "be").bind String.toNat? with
+        -- (`pr=` is compared with the model, not demanded: a server may decline the h2c upgrade and
+        --  answer in HTTP/1.1 — the property promises the exchange, not the protocol)
+        | some be => some (C02.tunnelHolds true (C02.freshB s host path user be) (stOf fs) status upOk
+                             (field fs "down" = some dnv) false)
+        | none => some (C02.tunnelHolds false true (stOf fs) status false false (field fs "b" = some "page"))
+      ({ st with P := P' }, verdictOf model impl prop)
+    | none =>
+      -- nobody answered through a backend connection (no `c=`): 404 + page is the only answer the
+      -- property allows, and only if no backend received the request
+      let (_, out) := HttpPool.step poolIsFixed s (.serve host path user none none 0 false)
+      let model := match out with
+        | .answered o _ _ => s!"be={o} rt={rt} c=? st={status} pr=h2"
+        | _ => noBackend
+      let reached := ((field fs "be").bind String.toNat?).isSome
+      (st, verdictOf model impl (some (C02.tunnelHolds reached true (stOf fs) status false false (field fs "b" = some "page"))))
+  | _, _, _, _, _, _ => (st, .bad "h2c")
 
 /-- CONNECT followed by tunnel rounds (`connectHandler`: no Transport, no pool, no clock) -/
 def stepConnect (st : State) (host user up down : String) (gaps : List Nat) (impl : String) : State × Verdict :=
@@ -318,9 +381,9 @@ def stepConnect (st : State) (host user up down : String) (gaps : List Nat) (imp
       | none => s!"be=- rt={rt} st=404 b=page"
     let prop : Option Bool :=
       match (field fs "be").bind String.toNat? with
-      | some be => some (C02.freshB s host [] user be && field fs "up" = some s!"{ul}.{uh}" &&
-                         field fs "down" = some s!"{dl}.{dh}")
-      | none => some (field fs "st" = some "404" ∧ field fs "b" = some "page")
+      | some be => some (C02.tunnelHolds true (C02.freshB s host [] user be) (stOf fs) 200
+                           (field fs "up" = some s!"{ul}.{uh}") (field fs "down" = some s!"{dl}.{dh}") false)
+      | none => some (C02.tunnelHolds false true (stOf fs) 200 false false (field fs "b" = some "page"))
     (st, verdictOf model impl prop)
   | _, _, _, _ => (st, .bad "connect")
 
@@ -351,6 +414,7 @@ def step (st : State) (tok : List String) (impl : String) : State × Verdict :=
     match parseGaps gaps with
     | some g => stepWs st host path user up down g impl
     | none => (st, .bad "tws")
+  | ["h2c", host, path, user, method, body, status, rbody] => stepH2c st host path user method body status rbody impl
   | ["connect", host, user, up, down] => stepConnect st host user up down [0, 0] impl
   | ["tconnect", host, user, up, down, gaps] =>
     match parseGaps gaps with
